@@ -7,14 +7,14 @@ mod verif_c03 {
 
     /// fixed-size writer (no heap, no unwrap): records everything written
     pub struct Sink {
-        pub buf: [u8; 48],
+        pub buf: [u8; 64],
         pub n: usize,
     }
     impl std::io::Write for Sink {
         fn write(&mut self, b: &[u8]) -> std::io::Result<usize> {
             let mut i = 0;
             while i < b.len() {
-                if self.n < 48 {
+                if self.n < 64 {
                     self.buf[self.n] = b[i];
                 }
                 self.n += 1;
@@ -62,7 +62,7 @@ mod verif_c03 {
         let bytes: [u8; 4] = kani::any();
         let len: usize = kani::any();
         kani::assume(len <= 4);
-        let mut w = Sink { buf: [0; 48], n: 0 };
+        let mut w = Sink { buf: [0; 64], n: 0 };
         let r = quoted_string(&mut w, &bytes[..len]);
         assert!(r.is_ok());
         let mut want = [0u8; 48];
@@ -85,7 +85,7 @@ mod verif_c03 {
         let bytes: [u8; 3] = kani::any();
         let len: usize = kani::any();
         kani::assume(len <= 3);
-        let mut w = Sink { buf: [0; 48], n: 0 };
+        let mut w = Sink { buf: [0; 64], n: 0 };
         let r = quoted_string(&mut w, &bytes[..len]);
         assert!(r.is_ok());
         let mut want = [0u8; 48];
@@ -108,6 +108,7 @@ mod verif_c03 {
         Iri([u8; 1]),
         Blank([u8; 1]),
         Lit([u8; 1], Option<[u8; 2]>, bool), // lexical, language tag, datatype is xsd:string?
+        LitDt([u8; 1], &'a str), // lexical, arbitrary datatype IRI
         Var([u8; 1]),
         Quoted(&'a [K<'a>; 3]),
     }
@@ -121,7 +122,7 @@ mod verif_c03 {
             match self {
                 K::Iri(_) => TermKind::Iri,
                 K::Blank(_) => TermKind::BlankNode,
-                K::Lit(..) => TermKind::Literal,
+                K::Lit(..) | K::LitDt(..) => TermKind::Literal,
                 K::Var(_) => TermKind::Variable,
                 K::Quoted(_) => TermKind::Triple,
             }
@@ -140,7 +141,7 @@ mod verif_c03 {
         }
         fn lexical_form(&self) -> Option<MownStr> {
             match self {
-                K::Lit(b, _, _) => Some(MownStr::from_ref(txt(b))),
+                K::Lit(b, _, _) | K::LitDt(b, _) => Some(MownStr::from_ref(txt(b))),
                 _ => None,
             }
         }
@@ -149,6 +150,7 @@ mod verif_c03 {
                 K::Lit(_, Some(_), _) => Some(IriRef::new_unchecked(MownStr::from_ref("http://www.w3.org/1999/02/22-rdf-syntax-ns#langString"))),
                 K::Lit(_, None, true) => Some(IriRef::new_unchecked(MownStr::from_ref(XSD_STRING))),
                 K::Lit(_, None, false) => Some(IriRef::new_unchecked(MownStr::from_ref("d"))),
+                K::LitDt(_, dt) => Some(IriRef::new_unchecked(MownStr::from_ref(dt))),
                 _ => None,
             }
         }
@@ -201,7 +203,7 @@ mod verif_c03 {
     #[kani::unwind(5)]
     fn c03_write_term_iri() {
         let c = ascii();
-        let mut w = Sink { buf: [0; 48], n: 0 };
+        let mut w = Sink { buf: [0; 64], n: 0 };
         assert!(write_term(&mut w, K::Iri([c])).is_ok());
         expect(&w, &[b'<', c, b'>']);
     }
@@ -211,7 +213,7 @@ mod verif_c03 {
     #[kani::unwind(5)]
     fn c03_write_term_blank() {
         let c = ascii();
-        let mut w = Sink { buf: [0; 48], n: 0 };
+        let mut w = Sink { buf: [0; 64], n: 0 };
         assert!(write_term(&mut w, K::Blank([c])).is_ok());
         expect(&w, &[b'_', b':', c]);
     }
@@ -221,7 +223,7 @@ mod verif_c03 {
     #[kani::unwind(5)]
     fn c03_write_term_var() {
         let c = ascii();
-        let mut w = Sink { buf: [0; 48], n: 0 };
+        let mut w = Sink { buf: [0; 64], n: 0 };
         assert!(write_term(&mut w, K::Var([c])).is_ok());
         expect(&w, &[b'?', c]);
     }
@@ -232,7 +234,7 @@ mod verif_c03 {
     fn c03_write_term_lit_lang() {
         let c = ascii();
         let t = [ascii(), ascii()];
-        let mut w = Sink { buf: [0; 48], n: 0 };
+        let mut w = Sink { buf: [0; 64], n: 0 };
         assert!(write_term(&mut w, K::Lit([c], Some(t), false)).is_ok());
         let mut want = [0u8; 48];
         let n = esc_ref(&[c], &mut want);
@@ -245,7 +247,7 @@ mod verif_c03 {
     #[kani::unwind(44)]
     fn c03_write_term_lit_datatype() {
         // datatype other than xsd:string: "lex"^^<dt>
-        let mut w = Sink { buf: [0; 48], n: 0 };
+        let mut w = Sink { buf: [0; 64], n: 0 };
         assert!(write_term(&mut w, K::Lit([b'x'], None, false)).is_ok());
         expect(&w, b"\"x\"^^<d>");
     }
@@ -255,7 +257,7 @@ mod verif_c03 {
     #[kani::unwind(44)]
     fn c03_write_term_lit_plain() {
         // xsd:string: no datatype suffix
-        let mut w = Sink { buf: [0; 48], n: 0 };
+        let mut w = Sink { buf: [0; 64], n: 0 };
         assert!(write_term(&mut w, K::Lit([b'x'], None, true)).is_ok());
         expect(&w, b"\"x\"");
     }
@@ -269,9 +271,10 @@ mod verif_c03 {
         use sophia_api::serializer::QuadSerializer;
         use sophia_api::source::IntoSource;
         let named: bool = kani::any();
-        let (a, b, c, g) = (ascii(), ascii(), ascii(), ascii());
+        // concrete components: the statement framing is what is checked here (terms are covered by c03_write_term_*)
+        let (a, b, c, g) = (b'a', b'b', b'c', b'g');
         let q: sophia_api::quad::Spog<K> = ([K::Iri([a]), K::Iri([b]), K::Blank([c])], if named { Some(K::Iri([g])) } else { None });
-        let mut ser = NqSerializer::new(Sink { buf: [0; 48], n: 0 });
+        let mut ser = NqSerializer::new(Sink { buf: [0; 64], n: 0 });
         let ok = ser.serialize_quads([q].into_iter().into_source()).is_ok();
         assert!(ok);
         let w = ser.kani_sink();
@@ -281,5 +284,42 @@ mod verif_c03 {
         } else {
             expect(w, &[b'<', a, b'>', b' ', b'<', b, b'>', b' ', b'_', b':', c, b'.', b'\n']);
         }
+    }
+
+    /// the datatype suffix is omitted for xsd:string ONLY: near misses must keep it
+    fn near_miss(dt: &'static str) {
+        let mut w = Sink { buf: [0; 64], n: 0 };
+        assert!(write_term(&mut w, K::LitDt([b'x'], dt)).is_ok());
+        // "x"^^<dt>
+        assert!(w.n == 3 + 4 + dt.len());
+        assert!(w.buf[0] == b'"' && w.buf[1] == b'x' && w.buf[2] == b'"' && w.buf[3] == b'^' && w.buf[4] == b'^' && w.buf[5] == b'<');
+        let d = dt.as_bytes();
+        let mut i = 0;
+        while i < d.len() {
+            assert!(w.buf[6 + i] == d[i]);
+            i += 1;
+        }
+        assert!(w.buf[6 + d.len()] == b'>');
+    }
+
+    //@STUBS
+    #[kani::proof]
+    #[kani::unwind(48)]
+    fn c03_write_term_lit_near_xsd_string_a() {
+        near_miss("https://www.w3.org/2001/XMLSchema#string");
+    }
+
+    //@STUBS
+    #[kani::proof]
+    #[kani::unwind(48)]
+    fn c03_write_term_lit_near_xsd_string_b() {
+        near_miss("http://www.w3.org/2001/XMLSchema#strin");
+    }
+
+    //@STUBS
+    #[kani::proof]
+    #[kani::unwind(48)]
+    fn c03_write_term_lit_near_xsd_string_c() {
+        near_miss("http://www.w3.org/2001/XMLSchema#String");
     }
 }
